@@ -390,9 +390,9 @@ Section Joint.
   Notation merge_fwd := (merge_information_forward_gen T t_eqb univ null union inter single f).
   Notation loop_fwd := (forward_analyis_loop_gen T t_eqb univ null union inter single f).
   Notation analysis_fwd := (forward_analyis_gen T t_eqb univ null union inter single f).
-  Notation merge_bwd := (merge_information_backward_gen T t_eqb null union inter f).
-  Notation loop_bwd := (backward_analysis_loop_gen T t_eqb null union inter f).
-  Notation analysis_bwd := (backward_analysis_gen T t_eqb null union inter f).
+  Notation merge_bwd := (merge_information_backward_gen T t_eqb univ null union inter f).
+  Notation loop_bwd := (backward_analysis_loop_gen T t_eqb univ null union inter f).
+  Notation analysis_bwd := (backward_analysis_gen T t_eqb univ null union inter f).
   Notation fstep := (SolverGenLemmas.fstep T t_eqb univ null union inter single f).
   Notation bstep := (SolverGenLemmas.bstep T t_eqb null union inter f).
   Notation gstep := (SolverGenLemmas.gstep T t_eqb inter).
@@ -502,9 +502,9 @@ Section Joint.
 
   Lemma gstep_call_bstep k b xb bc st :
     main_name_fresh f -> fblock f b = Some xb -> leaf_global f xb = false ->
-    gstep k (call_calculate_livein T null union inter f k b st) bc st b = bstep k bc st b.
+    gstep k (call_calculate_livein T univ null union inter f k b st) bc st b = bstep k bc st b.
   Proof.
-    intros Hm Hb Hl. rewrite (call_livein_eq T null union inter f k b xb st Hm Hb).
+    intros Hm Hb Hl. rewrite (call_livein_eq T univ null union inter f k b xb st Hm Hb).
     unfold SolverGenLemmas.bstep. rewrite Hb, Hl. reflexivity.
   Qed.
 
@@ -834,7 +834,7 @@ Section Joint.
     destruct (call_forward_analyis T t_eqb univ null union inter single f fuel keys wl d) as [[d1|]|]; [|reflexivity|reflexivity].
     cbn [bind].
     destruct (backward_worklist_gen f po) as [wl'|]; [|reflexivity]. cbn [bind].
-    destruct (call_backward_analysis T t_eqb null union inter f fuel keys wl' d1) as [[d2|]|]; reflexivity.
+    destruct (call_backward_analysis T t_eqb univ null union inter f fuel keys wl' d1) as [[d2|]|]; reflexivity.
   Qed.
 
   Lemma view_of_kget (d : gdict) k s : kget d k = Some s -> view d k = s.
